@@ -291,12 +291,18 @@ struct uprobe *lab_probe_new(const char *name, int *id_p)
     return uprobe_use(&rp->uprobe);
 }
 
-void lab_probes_release(void)
+int lab_probes_release(void)
 {
+    /* the reference of the laboratory was the last one unless a pipe (or a
+     * request, a sub-pipe manager...) kept the reference it was given */
+    int leaked = 0;
     for (int i = 0; i < lab_nprobes; i++)
-        if (lab_probes[i].in_use)
+        if (lab_probes[i].in_use) {
             uprobe_release(&lab_probes[i].uprobe);
+            if (lab_probes[i].in_use) leaked++;
+        }
     lab_nprobes = 0;
+    return leaked;
 }
 
 /* ---------------- recording sink ---------------- */
